@@ -23,7 +23,7 @@ MIN_NONTRIVIAL = {"quick": 300, "thorough": 3000}
 REQUIRED_PROBES = ["create_exit", "rlencode", "index_pixels", "index_bins"]
 REQUIRED_FEATURES = ["op:create", "op:create-unordered", "op:merge", "op:coarsen", "op:zoomify", "op:scool",
                      "op:cli-load", "op:cli-cload-pairs", "op:cli-cload-tabix", "tabix:max-split:>=3", "cload:records-on-unlisted-contigs",
-                     "create:ensure_sorted", "big:edge-inside-run", "big:edge-on-run-start",
+                     "create:ensure_sorted", "create:ensure_sorted:all-checks-off", "big:edge-inside-run", "big:edge-on-run-start",
                      "big:edge-one-past-run-start"]
 SHARD_TIMEOUT = {"quick": 1800, "thorough": 7200}
 
@@ -146,6 +146,9 @@ def run_c01_inputs(ctx, shard):
                 es = int(rng.integers(4))
                 if es in (1, 2) and len(df):
                     kw["ensure_sorted"] = True
+                    if rng.random() < 0.4:
+                        kw.update(boundscheck=False, dupcheck=False, triucheck=False)
+                        c.feature("create:ensure_sorted:all-checks-off")
                     if es == 1:
                         chs = [ch.iloc[rng.permutation(len(ch))].reset_index(drop=True) for ch in chs]
                     else:
